@@ -18,7 +18,7 @@ func init() {
 		Decided: "D1 for every token definition of Syntax.cdsn that is expressed with literals and ranges only, the grammar's language equals the scanner's matcher language; " +
 			"D2 for every ordered pair of token types (Ti tried before Tj) no word of Tj has a prefix in Ti, so the fixed scan order cannot steal a token; " +
 			"D3 the parser's embedded rule texts equal the grammar's rule definitions, its intrinsic alternatives are exactly the grammar's, its context switch has exactly the type alternatives and the arm labelled X builds through the collection class accessor X; " +
-			"D4 every conversion of token text whose callee returns an error has that error consumed by a nil test (directly or in a repository helper): accepted text is never silently replaced by another value; " +
+			"D4 every conversion of token text whose callee returns an error has that error consumed by a nil test (directly or in a repository helper) whose failing edge ends differently from the good one: accepted text is never silently replaced by another value; " +
 			"D5 the scanner goroutine and the parser share no mutable state other than the token queue: scanner fields are touched only by scanner methods, the parser calls no scanner instance method, tokens are immutable after construction." +
 			" Also: scanner pattern and grammar definition select the same matches under leftmost-first matching; the matcher sees the whole rest of the input; every parser field that carries state is re-created by ParseSource; no bounded collection is filled past its capacity in any type context.",
 		NotDecided: "that the recursive-descent control flow accepts exactly the grammar's rule language and builds the documented value (needs a semantics of the parser); sufficiency of the push-back stack; set/catalog semantics of the result.",
